@@ -13,6 +13,7 @@ use alloc::vec::Vec;
 #[cfg(feature = "bytes")]
 use bytes::BytesMut;
 use core::fmt;
+use octseq::array::Array;
 use octseq::builder::{EmptyBuilder, FreezeBuilder, OctetsBuilder, ShortBuf};
 
 //------------ NameBuilder --------------------------------------------------
@@ -186,8 +187,9 @@ where
             if len >= 253 {
                 return Err(PushError::LongName);
             }
-            self.head = Some(len);
+            // Only start the label if the octets could be appended.
             self._append_slice(&[0, ch])?;
+            self.head = Some(len);
         }
         Ok(())
     }
@@ -237,11 +239,16 @@ where
             if self.len() + slice.len() > 254 {
                 return Err(PushError::LongName);
             }
-            self.head = Some(self.len());
-            self._append_slice(&[0])?;
+            // Append the length octet and the content in one go so that
+            // a failing append leaves the builder unchanged.
+            let head = self.len();
+            let mut buf = [0u8; Label::MAX_LEN + 1];
+            buf[1..=slice.len()].copy_from_slice(slice);
+            self._append_slice(&buf[..=slice.len()])?;
+            self.head = Some(head);
+            return Ok(());
         }
-        self._append_slice(slice)?;
-        Ok(())
+        self._append_slice(slice)
     }
 
     /// Ends the current label.
@@ -357,10 +364,18 @@ where
             self.head = head;
             return Err(PushNameError::LongName);
         }
+        // Assemble the name first so that it is appended in one go and a
+        // failing append leaves the builder unchanged.
+        let mut buf = Array::<254>::new();
         for label in name.iter_labels() {
-            label
-                .compose(&mut self.builder)
-                .map_err(|_| PushNameError::ShortBuf)?;
+            if label.compose(&mut buf).is_err() {
+                self.head = head;
+                return Err(PushNameError::LongName);
+            }
+        }
+        if self.builder.append_slice(buf.as_slice()).is_err() {
+            self.head = head;
+            return Err(PushNameError::ShortBuf);
         }
         Ok(())
     }
